@@ -431,6 +431,35 @@ func runC12(r *vk.Run) {
 			c.Fail("", text+" ["+shape+"]: "+m, det())
 			return
 		}
+		if shape == "sum(X) op vector" {
+			// a range evaluated with step 0 is stepped every second (that is what the range aggregation on the
+			// left does with it); the vector on the right has to follow, step by step
+			p1 := EvalP{Start: p.Start, End: p.Start + 6e9, Step: time.Second}
+			p0 := EvalP{Start: p.Start, End: p.Start + 6e9, Step: 0}
+			type out struct {
+				res Result
+				err error
+			}
+			ch := make(chan out, 1)
+			go func() {
+				r0, e0 := evalQuery(&MemQuerier{Recs: recs, ErrAfter: -1}, text, p0)
+				ch <- out{r0, e0}
+			}()
+			r1, e1 := evalQuery(&MemQuerier{Recs: recs, ErrAfter: -1}, text, p1)
+			c.Eval(2)
+			select {
+			case o := <-ch:
+				if (o.err == nil) != (e1 == nil) || (e1 == nil && o.res.Canonical() != r1.Canonical()) {
+					d := det()
+					d["step_0"], d["step_1s"] = o.res, r1
+					c.Fail("", fmt.Sprintf("%s over [start, start+6s]: step 0 (err=%v) and step 1s (err=%v) give different results", text, o.err, e1), d)
+					return
+				}
+				c.Count("zero_step_ranges_compared", 1)
+			case <-time.After(30 * time.Second):
+				c.Count("zero_step_range_undecided", 1) // outside the property's domain if it does not end: not judged
+			}
+		}
 		c.Count("vectorfn_expressions", 1)
 		c.Count("vectorfn_points", len(gridTimes(p)))
 		c.Seen("vectorfn_shapes", shape)
